@@ -68,7 +68,8 @@ class Gen:
             return bytes(r.randrange(256) for _ in range(r.randint(0, 10)))
         if k < 0.9:
             return bytes(r.choice([0, 1, 8, 9, 10, 13, 27, 31, 32, 34, 47, 92, 127, 128, 0xbf, 0xc2, 0xe0, 0xed, 0xf4, 0xff]) for _ in range(r.randint(1, 6)))
-        return (b'x' * r.choice([50, 300, 2000]))
+        # long values: a line beyond the formatting-buffer cap (10 KB) makes the layout drop its pooled buffer - what the NEXT events see matters
+        return (b'x' * r.choice([50, 300, 2000, 50, 300, 2000, 10150, 12000]))
 
     def z(self, w):
         lo, hi = irange(w)
